@@ -1,0 +1,48 @@
+//go:build verif
+
+package jsonapi
+
+// Contracts for URL parsing (C07): no panic for any input, results consistent
+// with the schema.
+
+//@ func parseCommaList
+//@ flag absolute-quantifiers
+//@ props C07
+//@ modifies new[string]
+//@ ensures fresh: fresh(result)
+//@ ensures non-empty-items: forall i int :: 0 <= i && i < len(result) ==> result[i] != ""
+//@ loop 0 invariant items: fresh(items2) && len(items2) >= 0 && unchanged(heap[string]) && items == pre(items)
+//@ loop 0 invariant non-empty: forall i int :: 0 <= i && i < len(items2) ==> items2[i] != ""
+
+//@ func parseFragments
+//@ flag absolute-quantifiers
+//@ props C07
+//@ modifies new[string]
+//@ ensures fresh: fresh(result)
+//@ ensures non-empty-items: forall i int :: 0 <= i && i < len(result) ==> result[i] != ""
+//@ loop 0 invariant items: fresh(fragments2) && len(fragments2) >= 0 && unchanged(heap[string]) && fragments == pre(fragments)
+//@ loop 0 invariant non-empty: forall i int :: 0 <= i && i < len(fragments2) ==> fragments2[i] != ""
+
+//@ func deduceRoute
+//@ props C07
+//@ ensures empty: len(path) == 0 ==> result == ""
+
+//@ func SimpleURL.Path
+//@ props C07
+//@ requires nonnil: s != nil
+
+// What NewSimpleURL guarantees about its result (and what NewParams relies on).
+//@ spec nonEmptyItems(l []string) = forall i int :: 0 <= i && i < len(l) ==> l[i] != ""
+//@ spec suWf(su SimpleURL) = su.Fields != nil && nonEmptyItems(su.Fragments) && nonEmptyItems(su.SortingRules) && nonEmptyItems(su.Include)
+
+//@ func NewSimpleURL
+//@ flag absolute-quantifiers
+//@ props C07
+//@ modifies all
+//@ ensures wf: result1 == nil ==> suWf(result0)
+//@ loop 0 invariant su: sURL.Fields != nil && nonEmptyItems(sURL.Fragments) && nonEmptyItems(sURL.SortingRules) && nonEmptyItems(sURL.Include) && u != nil
+//@ loop 0 invariant values: values != nil && values != sURL.Fields && (forall k string :: k in values ==> len(values[k]) >= 1)
+//@ loop 1 invariant su: sURL.Fields != nil && nonEmptyItems(sURL.Fragments) && nonEmptyItems(sURL.SortingRules) && nonEmptyItems(sURL.Include) && u != nil
+//@ loop 1 invariant values: values != nil && values != sURL.Fields && (forall k string :: k in values ==> len(values[k]) >= 1)
+//@ loop 2 invariant su: sURL.Fields != nil && nonEmptyItems(sURL.Fragments) && nonEmptyItems(sURL.SortingRules) && nonEmptyItems(sURL.Include) && u != nil
+//@ loop 2 invariant values: values != nil && values != sURL.Fields && (forall k string :: k in values ==> len(values[k]) >= 1)
